@@ -3,7 +3,9 @@
 A *history* is a list of revisions.  Each revision is a dict
 
     {"objs": {num: value}, "root": num, "info": num,          # logical part
-     "form": "T"|"S"|"H", "pack": bool, "eol": bytes, "W": (w1, w2, w3)}   # physical part
+     "frees": [num...], "gens": {num: generation},            # optional: numbers marked free; generation numbers
+     "form": "T"|"S"|"H", "pack": bool, "eol": bytes, "W": (w1, w2, w3),   # physical part
+     "xfilter": None|"flate"|"png"}   # optional: cross-reference streams FlateDecode'd, "png" with /Predictor 12
 
 ``write_history`` lays the revisions out as an initial body followed by
 incremental updates (ISO 32000-1 7.5.4-7.5.8) and returns the bytes together
@@ -23,7 +25,8 @@ are ordinary objects listed (type 1) only in the /XRefStm stream.
 """
 from __future__ import annotations
 
-from typing import Any, Dict, List, Sequence, Tuple
+import zlib
+from typing import Any, Dict, List, Optional, Sequence, Tuple
 
 from mc.pdfgen import N, Name, Ref, Stream, ser
 
@@ -47,23 +50,50 @@ def runs_of(nums: Sequence[int]) -> List[List[int]]:
     return runs
 
 
-def table_bytes(inuse: Dict[int, int], free: Sequence[int], eol: bytes) -> bytes:
-    """Classic table: one subsection per maximal run; 20-byte entries."""
+def table_bytes(inuse: Dict[int, Any], free: Any, eol: bytes) -> bytes:
+    """Classic table: one subsection per maximal run; 20-byte entries.
+
+    inuse: {num: offset | (offset, generation)}; free: [num...] (entry ``0 65535 f`` for 0, ``0 1 f`` otherwise) or
+    {num: (next free number, generation)}."""
+    if not isinstance(free, dict):
+        free = {n: (0, 65535 if n == 0 else 1) for n in free}
     out = bytearray(b"xref\n")
     for run in runs_of(list(inuse) + list(free)):
         out += b"%d %d\n" % (run[0], len(run))
         for n in run:
             if n in inuse:
-                ent = b"%010d %05d n" % (inuse[n], 0)
+                og = inuse[n]
+                off, gen = og if isinstance(og, tuple) else (og, 0)
+                ent = b"%010d %05d n" % (off, gen)
             else:
-                ent = b"%010d %05d f" % (0, 65535 if n == 0 else 1)
+                ent = b"%010d %05d f" % free[n]
             ent += eol
             assert len(ent) == 20
             out += ent
     return bytes(out)
 
 
-def xref_stream(entries: Dict[int, Tuple[int, int, int]], W: Tuple[int, int, int], extra: Dict[str, Any], size: int) -> Stream:
+def png_up_encode(data: bytes, columns: int) -> bytes:
+    """PNG 'Up' predictor (filter type 2) on rows of ``columns`` bytes, as producers write cross-reference streams."""
+    assert len(data) % columns == 0
+    out = bytearray()
+    prev = bytes(columns)
+    for i in range(0, len(data), columns):
+        row = data[i : i + columns]
+        out.append(2)
+        out += bytes((row[j] - prev[j]) & 255 for j in range(columns))
+        prev = row
+    return bytes(out)
+
+
+class CodedStream(Stream):
+    """A stream whose stored bytes (``data``) are an encoding of ``decoded``; a reader must report ``decoded``."""
+
+    decoded: bytes = b""
+
+
+def xref_stream(entries: Dict[int, Tuple[int, int, int]], W: Tuple[int, int, int], extra: Dict[str, Any], size: int,
+                xfilter: Optional[str] = None) -> Stream:
     data = bytearray()
     for n in sorted(entries):
         t, a, b = entries[n]
@@ -83,12 +113,27 @@ def xref_stream(entries: Dict[int, Tuple[int, int, int]], W: Tuple[int, int, int
     if idx != [0, size]:
         d["Index"] = idx
     d.update(extra)
-    return Stream(d, bytes(data))
+    if xfilter is None:
+        return Stream(d, bytes(data))
+    d["Filter"] = N("FlateDecode")
+    raw = bytes(data)
+    if xfilter == "png":
+        d["DecodeParms"] = {"Predictor": 12, "Columns": sum(W)}
+        raw = png_up_encode(raw, sum(W))
+    elif xfilter != "flate":
+        raise ValueError(xfilter)
+    cs = CodedStream(d, zlib.compress(raw))
+    cs.decoded = bytes(data)
+    return cs
 
 
 def stream_with_length(s: Stream) -> Stream:
     d = dict(s.d)
     d["Length"] = len(s.data)
+    if isinstance(s, CodedStream):
+        c = CodedStream(d, s.data)
+        c.decoded = s.decoded
+        return c
     return Stream(d, s.data)
 
 
@@ -96,7 +141,8 @@ def write_history(revs: Sequence[Dict[str, Any]], header: bytes = HEADER):
     """Return (data, model).
 
     model = {"cuts": [len of file after revision k],
-             "values": [ {num: value} resolved after revision k ],
+             "values": [ {num: value} newest definition of every number after revision k (kept when later freed) ],
+             "freed": [ sorted numbers whose newest cross-reference entry after revision k is a free entry ],
              "sections": [ newest-first list of (kind, sorted in-use numbers) after revision k ],
              "root": [num...], "info": [num...],
              "offsets": [ {num: ("d", offset) | ("o", container, index)} per revision ],
@@ -104,24 +150,35 @@ def write_history(revs: Sequence[Dict[str, Any]], header: bytes = HEADER):
     """
     out = bytearray(header)
     cur: Dict[int, Any] = {}
+    freed: set = set()
     sections: List[Tuple[str, List[int]]] = []
-    model: Dict[str, Any] = {"cuts": [], "values": [], "sections": [], "root": [], "info": [], "offsets": [], "xrefpos": []}
+    model: Dict[str, Any] = {"cuts": [], "values": [], "freed": [], "sections": [], "root": [], "info": [], "offsets": [], "xrefpos": []}
     prev = None
     maxnum = 0
     for r, rev in enumerate(revs):
         form, pack, eol, W = rev["form"], rev["pack"], rev["eol"], tuple(rev["W"])
+        xfilter = rev.get("xfilter")
+        gens: Dict[int, int] = dict(rev.get("gens") or {})
+        frees = rev.get("frees") or {}
+        if not isinstance(frees, dict):
+            frees = {n: 1 for n in frees}
         objs: Dict[int, Any] = dict(rev["objs"])
-        if not objs:
+        if not objs and not frees:
             raise NotExpressible("empty revision")
+        if set(frees) & set(objs):
+            raise NotExpressible("a revision cannot both define and free a number")
         if form == "T" and pack:
             raise NotExpressible("object streams need a cross-reference stream")
         osnum = CONTAINER_BASE + 2 * r
         xnum = osnum + 1
-        assert max(objs) < CONTAINER_BASE
-        packed = sorted(n for n, v in objs.items() if not isinstance(v, Stream)) if pack else []
+        assert max(list(objs) + list(frees)) < CONTAINER_BASE
+        # only generation-0, non-stream objects may live in an object stream (7.5.7)
+        packed = sorted(n for n, v in objs.items() if not isinstance(v, Stream) and not gens.get(n)) if pack else []
         hidden_direct: List[int] = []
         if form == "H" and not packed:
             cand = sorted(n for n in objs if n >= 10) or sorted(objs)
+            if not cand:
+                raise NotExpressible("hybrid revision with nothing to hide")
             hidden_direct = sorted(set(cand[1::2]) | {cand[-1]})
         offs: Dict[int, Any] = {}
         # ---- body: direct objects
@@ -133,7 +190,7 @@ def write_history(revs: Sequence[Dict[str, Any]], header: bytes = HEADER):
                 v = stream_with_length(v)
                 objs[n] = v
             offs[n] = ("d", len(out))
-            out += b"%d 0 obj\n" % n + ser(v) + b"\nendobj\n"
+            out += b"%d %d obj\n" % (n, gens.get(n, 0)) + ser(v) + b"\nendobj\n"
         if packed:
             parts, head, off = [], [], 0
             for i, n in enumerate(packed):
@@ -147,27 +204,37 @@ def write_history(revs: Sequence[Dict[str, Any]], header: bytes = HEADER):
             objs[osnum] = osobj
             offs[osnum] = ("d", len(out))
             out += b"%d 0 obj\n" % osnum + ser(osobj) + b"\nendobj\n"
-        maxnum = max(maxnum, max(objs), xnum if form != "T" else 0)
+        maxnum = max([maxnum] + list(objs) + list(frees) + ([xnum] if form != "T" else []))
         size = maxnum + 1
         tr: Dict[str, Any] = {"Root": Ref(rev["root"]), "Info": Ref(rev["info"])}
         if prev is not None:
             tr["Prev"] = prev
-        free0 = [0] if r == 0 else []
+        # free list of this section: 0 -> freed numbers in ascending order -> 0 (7.5.4)
+        freelist: Dict[int, Tuple[int, int]] = {}
+        fsorted = sorted(frees)
+        if r == 0 or fsorted:
+            freelist[0] = (fsorted[0] if fsorted else 0, 65535)
+        for i, n in enumerate(fsorted):
+            freelist[n] = (fsorted[i + 1] if i + 1 < len(fsorted) else 0, frees[n])
+
+        def ent1(n, o):
+            return (1, o[1], gens.get(n, 0)) if o[0] == "d" else (2, o[1], o[2])
+
         if form == "T":
             xpos = len(out)
-            inuse = {n: o[1] for n, o in offs.items()}
-            out += table_bytes(inuse, free0, eol)
+            inuse = {n: (o[1], gens.get(n, 0)) for n, o in offs.items()}
+            out += table_bytes(inuse, freelist, eol)
             out += b"trailer\n" + ser({"Size": size, **tr}) + b"\n"
             newsecs = [("T", sorted(inuse))]
         elif form == "S":
             xpos = len(out)
             entries: Dict[int, Tuple[int, int, int]] = {}
             for n, o in offs.items():
-                entries[n] = (1, o[1], 0) if o[0] == "d" else (2, o[1], o[2])
+                entries[n] = ent1(n, o)
             entries[xnum] = (1, xpos, 0)
-            for n in free0:
-                entries[n] = (0, 0, 65535)
-            xs = stream_with_length(xref_stream(entries, W, tr, size))
+            for n, (nx, g) in freelist.items():
+                entries[n] = (0, nx, g)
+            xs = stream_with_length(xref_stream(entries, W, tr, size, xfilter))
             objs[xnum] = xs
             offs[xnum] = ("d", xpos)
             out += b"%d 0 obj\n" % xnum + ser(xs) + b"\nendobj\n"
@@ -177,15 +244,17 @@ def write_history(revs: Sequence[Dict[str, Any]], header: bytes = HEADER):
             xspos = len(out)
             entries = {}
             for n in hidden:
-                o = offs[n]
-                entries[n] = (1, o[1], 0) if o[0] == "d" else (2, o[1], o[2])
-            xs = stream_with_length(xref_stream(entries, W, {}, size))
+                entries[n] = ent1(n, offs[n])
+            xs = stream_with_length(xref_stream(entries, W, {}, size, xfilter))
             objs[xnum] = xs
             offs[xnum] = ("d", xspos)
             out += b"%d 0 obj\n" % xnum + ser(xs) + b"\nendobj\n"
             xpos = len(out)
-            inuse = {n: o[1] for n, o in offs.items() if n not in hidden}
-            out += table_bytes(inuse, free0 + list(hidden), eol)
+            inuse = {n: (o[1], gens.get(n, 0)) for n, o in offs.items() if n not in hidden}
+            tfree = dict(freelist)
+            for n in hidden:
+                tfree[n] = (0, 1)  # hidden from table-only readers
+            out += table_bytes(inuse, tfree, eol)
             out += b"trailer\n" + ser({"Size": size, **tr, "XRefStm": xspos}) + b"\n"
             newsecs = [("T", sorted(inuse)), ("S", sorted(entries))]
         else:
@@ -193,9 +262,11 @@ def write_history(revs: Sequence[Dict[str, Any]], header: bytes = HEADER):
         out += b"startxref\n%d\n%%%%EOF\n" % xpos
         prev = xpos
         cur = {**cur, **objs}
+        freed = (freed - set(objs)) | set(frees)
         sections = newsecs + sections
         model["cuts"].append(len(out))
         model["values"].append(dict(cur))
+        model["freed"].append(sorted(freed))
         model["sections"].append(list(sections))
         model["root"].append(rev["root"])
         model["info"].append(rev["info"])
@@ -210,7 +281,7 @@ def canon_model(v: Any) -> Any:
     from fractions import Fraction
 
     if isinstance(v, Stream):
-        return ("S", canon_model(v.d), bytes(v.data))
+        return ("S", canon_model(v.d), bytes(v.decoded if isinstance(v, CodedStream) else v.data))
     if isinstance(v, Name):
         return ("N", v.v.decode("latin-1"))
     if isinstance(v, Ref):
